@@ -76,4 +76,51 @@ Proof.
   change (T_d <? 0)%Z with false. cbv beta iota zeta. intros [= <- <-].
   exists y1, y2, y3, l3. cbn [vdflt]. auto.
 Qed.
+(* mpt_range_set with an iterator value, for a source that serves numbers: the next two elements become
+   min and max and the source is left behind them; with fewer than two elements it is refused (negative
+   result) and the range is untouched *)
+Theorem range_set_from_numbers s mn mx : inv rnd s -> numeric s = true -> s_bad (abs s) = false ->
+  let '(r, a, b, s') := range_set rnd s mn mx in
+  match remaining (abs s) with
+  | x :: y :: rest => r = 2%Z /\ x = EV a /\ y = EV b /\ remaining (abs s') = rest /\ inv rnd s'
+  | _ => (r < 0)%Z /\ a = mn /\ b = mx
+  end.
+Proof.
+  intros I NU NB. unfold range_set.
+  assert (FF : forall l : list elem, match l with [] => false | _ :: _ => false end = false) by (now destruct l).
+  pose proof (consume_numeric s I NU) as C1. destruct (it_consume rnd s) as [[r1 v1] s1].
+  destruct (IterSpec.remaining rnd (abs s)) as [|x1 l1] eqn:R0.
+  { destruct C1 as [N _]. assert (L : (r1 <? 0)%Z = true) by (apply Z.ltb_lt; lia). rewrite L. auto. }
+  rewrite NB, FF in C1. destruct C1 as [-> [[y1 [-> ->]] [I1 [NU1 [R1 B1]]]]].
+  change (T_d <? 0)%Z with false. change (T_d =? 0)%Z with false. cbv beta iota zeta.
+  pose proof (consume_numeric s1 I1 NU1) as C2. destruct (it_consume rnd s1) as [[r2 v2] s2].
+  rewrite R1 in C2. destruct l1 as [|x2 l2].
+  { destruct C2 as [N _]. assert (L : (r2 <? 0)%Z = true) by (apply Z.ltb_lt; lia). rewrite L. auto. }
+  rewrite B1, FF in C2. destruct C2 as [-> [[y2 [-> ->]] [I2 [NU2 [R2 B2]]]]].
+  change (T_d <? 0)%Z with false. cbv beta iota zeta. cbn [vdflt]. auto.
+Qed.
 End Feed.
+
+(* mpt_range_set with a vector of doubles: exactly two complete elements (16..23 bytes) are taken as
+   min and max (a null base: the default range 0..1); anything else is refused and the range is untouched.
+   A null iterator pointer gives the default range; other value types are refused. *)
+Theorem range_set_vector bytes base mn mx :
+  range_set_val (RSVec bytes base) mn mx =
+  if ((16 <=? bytes) && (bytes <? 24))%N
+  then match base with Some l => (0%Z, nth 0 l NaN, nth 1 l NaN) | None => (0%Z, Fin 0, of_N 1) end
+  else (BadValue, mn, mx).
+Proof.
+  unfold range_set_val.
+  destruct (N.leb_spec 16 bytes) as [L|L], (N.ltb_spec bytes 24) as [U|U]; cbn [andb].
+  - replace (bytes / 8)%N with 2%N; [reflexivity|]. apply (N.div_unique bytes 8 2 (bytes - 16)); lia.
+  - destruct (N.eqb_spec (bytes / 8) 2) as [E|E]; [|reflexivity]. exfalso.
+    pose proof (N.mul_div_le bytes 8 ltac:(lia)). pose proof (N.mod_lt bytes 8 ltac:(lia)).
+    pose proof (N.div_mod bytes 8 ltac:(lia)). lia.
+  - destruct (N.eqb_spec (bytes / 8) 2) as [E|E]; [|reflexivity]. exfalso.
+    pose proof (N.mul_div_le bytes 8 ltac:(lia)). lia.
+  - lia.
+Qed.
+Theorem range_set_other mn mx :
+  range_set_val RSNoIter mn mx = (0%Z, Fin 0, of_N 1) /\
+  range_set_val RSVecNull mn mx = (BadValue, mn, mx) /\ range_set_val RSOther mn mx = (BadType, mn, mx).
+Proof. repeat split. Qed.
